@@ -1241,6 +1241,24 @@ def emit_cexpw():
             "Open Scope Z_scope.\nOpen Scope bool_scope.\n\n" + cfun.render(alld))
 
 
+def emit_cparts():
+    """dtw_wps_parts (decoding of the settings struct + geometry of the compact layout), translated WHOLE"""
+    import cfun
+    d = os.path.join(REPO, "src/DTAIDistanceC/DTAIDistanceC")
+    src = open(os.path.join(d, "dd_dtw.c")).read()
+    hdr = open(os.path.join(d, "dd_dtw.h")).read()
+    try:
+        alld = cfun.translate_function(src, hdr, "dtw_wps_parts", {})
+    except cfun.TranslateError as exc:
+        raise TranslateError("cfun: %s" % exc)
+    check_fv([(name, [p for p, _ in params], text) for name, params, ret, text in alld])
+    return ("(* GENERATED by tools/translate_c.py (tools/cfun.py) from src/DTAIDistanceC/DTAIDistanceC/dd_dtw.c -- do not edit *)\n"
+            "(* dtw_wps_parts translated WHOLE: the struct it returns is the tuple of its members in the order of the\n"
+            "   definition of DTWWps_s in dd_dtw.h *)\n"
+            "From Coq Require Import ZArith Bool List.\nFrom DV Require Import Prelude Cost CLang.\nImport ListNotations.\n"
+            "Open Scope Z_scope.\nOpen Scope bool_scope.\n\n" + cfun.render(alld))
+
+
 def write_gen(outdir, fname, text):
     os.makedirs(outdir, exist_ok=True)
     p = os.path.join(outdir, fname)
@@ -1259,6 +1277,7 @@ def _main():
     write_gen(outdir, "Gen_ced.v", emit_ced())
     write_gen(outdir, "Gen_cwpsk.v", emit_cwpsk())
     write_gen(outdir, "Gen_cexpw.v", emit_cexpw())
+    write_gen(outdir, "Gen_cparts.v", emit_cparts())
     try:
         text = emit_loc(analyse_loc())
     except (TranslateError, OSError) as exc:
